@@ -50,7 +50,15 @@ EVALS = ("compile", "execute", "process", "diagnose")
 
 
 def world():
-    return spaces.multi_world()
+    # the iteration leaf carries ``parameters`` of an unhashable type (a list, as in the library's own tests):
+    # relations must stay hashable and equal-on-rebuild whatever a leaf was given as extra identifying data
+    import dataclasses
+
+    from ..realize import World
+
+    w = spaces.multi_world()
+    leaves = tuple(dataclasses.replace(s, parameters=(1, 2)) if s.name in ("L", "K") else s for s in w.leaves)
+    return World(engines=w.engines, leaves=leaves)
 
 
 def structure(rel):
